@@ -167,6 +167,8 @@ def run(case, j):
         sgb = np.sign((est_a.transform(X) * est_b.transform(Kc)).sum(axis=0) + 1e-300)
         j.close("named kernel (+center) == precomputed, explicitly normalised kernel: projections", T_v, Tb * sgb, tol * sT * 10)
         j.close("named kernel (+center) == precomputed kernel: predictions", P_v, np.asarray(est_b.predict(Kvc)).reshape(P_v.shape), tol * sY * 10)
+        Ta_tr = np.asarray(est_a.transform(X))
+        j.close("named kernel (+center) == precomputed kernel: training projections", Ta_tr, np.asarray(est_b.transform(Kc)) * sgb, tol * sT * 10)
         j.note("plumbing_pairs")
         if center:
             est_c = _make(case, "precomputed", True, reg_b if regk != "krr_fitted" else KernelRidge(kernel="precomputed", alpha=alpha).fit(K, Y))
@@ -175,6 +177,9 @@ def run(case, j):
             sg = np.sign((est_a.transform(X) * est_c.transform(K)).sum(axis=0) + 1e-300)
             j.close("center=True == KernelNormalizer applied by hand (train and test kernels)", T_v, Tc * sg, tol * sT * 10)
             j.close("center=True == manual normalisation: predictions", P_v, np.asarray(est_c.predict(Kv)).reshape(P_v.shape), tol * sY * 10)
+            # the training kernel the caller passed to fit must still give the training projections
+            j.close("center=True (precomputed): transform / predict of the training kernel after fit", np.asarray(est_c.transform(K)) * sg, Ta_tr, tol * sT * 10)
+            j.close("center=True (precomputed): in-sample predictions", np.asarray(est_c.predict(K)), np.asarray(est_a.predict(X)), tol * sY * 10)
             j.note("centre_pairs")
     else:
         j.skip("eigen-gap-guard")
